@@ -5,11 +5,16 @@
 package sim
 
 import (
-	"github.com/yorkie-team/yorkie/pkg/zzsimrt"
+	"google.golang.org/protobuf/proto"
+	"os"
+	"runtime/debug"
+
 	"bytes"
 	"context"
 	"errors"
 	"fmt"
+	api "github.com/yorkie-team/yorkie/api/yorkie/v1"
+	"github.com/yorkie-team/yorkie/pkg/zzsimrt"
 	"io"
 	"net/http"
 	"net/http/httptest"
@@ -103,6 +108,21 @@ func InitProcess() {
 		}
 		return i % shards
 	}
+	// identifiers (memdb object ids, xid): seconds of the simulated clock, then a counter
+	// of the world - ordered like the real ones, equal in every process and every replay
+	zzsimrt.IDHook = func(orig string) string {
+		w := curWorld
+		if w == nil {
+			return orig
+		}
+		w.mu.Lock()
+		defer w.mu.Unlock()
+		w.simIDs++
+		if len(orig) == 24 {
+			return fmt.Sprintf("%08x%08x%08x", uint32(gotime.Now().Unix()), 0x51d00000, w.simIDs)
+		}
+		return fmt.Sprintf("sim%017d", w.simIDs)
+	}
 	_ = logging.SetLogLevel("fatal")
 	http.DefaultTransport = simTransport{}
 	metricsOnce.Do(func() {
@@ -116,7 +136,8 @@ func InitProcess() {
 
 // NetFault says what the simulated network does to the next top-level request.
 type NetFault struct {
-	Kind string `json:"kind"` // drop_req | drop_resp | hold (deliver and keep a copy) | hold_only (keep a copy, do not deliver)
+	Kind string `json:"kind"`           // drop_req | drop_resp | hold (deliver and keep a copy) | hold_only (keep a copy, do not deliver) | corrupt_req | corrupt_resp
+	Seed int    `json:"seed,omitempty"` // corruption: seed of the mutation
 }
 
 // DBFault says what the storage proxy does to one storage call.
@@ -194,21 +215,26 @@ type World struct {
 	gen  *serverGen
 	gens int
 
-	rpcSeq   int
-	netPlan  *NetFault
-	dbPlan   []*DBFault
-	held     []*heldRequest
-	heldSeq  int
-	parked   []*parkedCall
-	parkSeq  int
-	tasks    map[string]*taskInfo
-	curRPC   *RPCRecord
-	RPCs     []*RPCRecord
-	keepRPCs bool
-	curCli   int
-	Intr     *intruderState // C13
-	shards   map[string]int // cache key -> order of first appearance
-	simIDs   int // identifiers handed out in place of process-random ones (step-level engine)
+	rpcSeq    int
+	netPlan   *NetFault
+	dbPlan    []*DBFault
+	held      []*heldRequest
+	heldSeq   int
+	parked    []*parkedCall
+	parkSeq   int
+	tasks     map[string]*taskInfo
+	curRPC    *RPCRecord
+	RPCs      []*RPCRecord
+	keepRPCs  bool
+	curCli    int
+	DrainLog  []string
+	Intr      *intruderState // C13
+	Panics    []string       // C09 hostile: classes of recovered panics, in order
+	PanicInfo []string
+	keepPacks bool // C09: remember the packs seen on the wire (material for mutation)
+	seenPacks [][]byte
+	shards    map[string]int // cache key -> order of first appearance
+	simIDs    int            // identifiers handed out in place of process-random ones (step-level engine)
 
 	Projects []*types.Project
 
@@ -560,6 +586,12 @@ func (w *World) roundTrip(req *http.Request) (*http.Response, error) {
 			}
 		})
 	}
+	if nf != nil && nf.Kind == "corrupt_req" {
+		// the request reaches the server damaged (or was hostile to begin with)
+		body = w.corruptBody(nf.Seed, rec.Proc, maybeGunzip(req.Header, body), true)
+		req.Header.Del("Content-Encoding")
+		w.fault("net_corrupt_request")
+	}
 	resp, respBody, err := w.deliver(ctx, req.Method, req.URL.String(), req.Header, body)
 	if err != nil {
 		rec.Err = err.Error()
@@ -568,6 +600,26 @@ func (w *World) roundTrip(req *http.Request) (*http.Response, error) {
 	rec.Status = resp.StatusCode
 	if w.keepRPCs {
 		rec.RespBody = respBody
+	}
+	if nf != nil && nf.Kind == "corrupt_resp" && resp.StatusCode == 200 {
+		respBody = w.corruptBody(nf.Seed, rec.Proc, maybeGunzip(resp.Header, respBody), false)
+		resp.Header.Del("Content-Encoding")
+		resp.Header.Del("Content-Length")
+		resp.ContentLength = int64(len(respBody))
+		resp.Body = io.NopCloser(bytes.NewReader(respBody))
+		w.fault("net_corrupt_response")
+		return resp, nil
+	}
+	if w.keepPacks && len(w.seenPacks) < 64 {
+		if ev := decodeWire(rec, req.Header, body, resp.StatusCode, resp.Header, respBody); ev != nil {
+			for _, pb := range []*api.ChangePack{ev.ReqPB, ev.RespPB} {
+				if pb != nil && (len(pb.Changes) > 0 || len(pb.Snapshot) > 0) {
+					if b, err := proto.Marshal(pb); err == nil {
+						w.seenPacks = append(w.seenPacks, b)
+					}
+				}
+			}
+		}
 	}
 	if len(w.wireTaps) > 0 {
 		if ev := decodeWire(rec, req.Header, body, resp.StatusCode, resp.Header, respBody); ev != nil {
@@ -597,11 +649,18 @@ func (w *World) deliver(ctx context.Context, method, url string, hdr http.Header
 	}
 	rr := httptest.NewRecorder()
 	crashed := false
+	aborted := false
 	func() {
 		defer func() {
 			if r := recover(); r != nil {
 				if _, ok := r.(crashPanic); ok {
 					crashed = true
+					return
+				}
+				if w.Cfg.Extra["recover_panics"] > 0 {
+					// net/http recovers a panicking handler and drops the connection
+					w.notePanic("handler", r, string(debug.Stack()))
+					aborted = true
 					return
 				}
 				panic(r)
@@ -611,6 +670,9 @@ func (w *World) deliver(ctx context.Context, method, url string, hdr http.Header
 	}()
 	if crashed {
 		return nil, nil, ErrCrashed
+	}
+	if aborted {
+		return nil, nil, ErrNetDropped
 	}
 	resp := rr.Result()
 	rb, _ := io.ReadAll(resp.Body)
@@ -905,10 +967,16 @@ func (w *World) ReleaseParked(i int) bool {
 	return true
 }
 
+var drainDebug = os.Getenv("VERIF_DRAIN_DEBUG") != ""
+
 // DrainBackground runs every parked background task to completion.
 func (w *World) DrainBackground() int {
 	n := 0
 	for len(w.Parked()) > 0 {
+		if drainDebug {
+			p := w.Parked()[0]
+			w.DrainLog = append(w.DrainLog, p.task.name+":"+p.method)
+		}
 		w.ReleaseParked(0)
 		n++
 		if n > 10000 {
@@ -928,11 +996,13 @@ func (w *World) RunFG(f func()) (hung bool) {
 	}
 	done := make(chan struct{})
 	var pv any
+	var pstack string
 	go func() {
 		defer close(done)
 		defer func() {
 			if r := recover(); r != nil {
 				pv = r
+				pstack = string(debug.Stack())
 			}
 		}()
 		f()
@@ -942,6 +1012,13 @@ func (w *World) RunFG(f func()) (hung bool) {
 		select {
 		case <-done:
 			if pv != nil {
+				if _, crash := pv.(crashPanic); !crash && w.Cfg.Extra["recover_panics"] > 0 {
+					// hostile-bytes profile: what a panic means is judged at the end of
+					// the run (a library call that panics, a handler net/http recovers);
+					// the run goes on, because what counts is whether the SERVER survives
+					w.notePanic("call", pv, pstack)
+					return false
+				}
 				panic(pv)
 			}
 			return false
@@ -957,4 +1034,14 @@ func (w *World) RunFG(f func()) (hung bool) {
 		}
 		gotime.Sleep(gotime.Second)
 	}
+}
+
+// notePanic records a recovered panic (hostile-bytes profile).
+func (w *World) notePanic(where string, pv any, stack string) {
+	cls := where + ":" + panicClass2(trimStack(stack))
+	w.mu.Lock()
+	w.Panics = append(w.Panics, cls)
+	w.PanicInfo = append(w.PanicInfo, fmt.Sprintf("%v\n%s", pv, trimStack(stack)))
+	w.mu.Unlock()
+	w.Stats.Probes["recovered_panic"]++
 }
